@@ -1024,12 +1024,14 @@ class ChannelFactory:
             # state transition to "closed" state
             if remoteerror:
                 channel._remoteerrors.append(remoteerror)
+            # mark the channel closed before receivers are woken up, otherwise
+            # a receiver that just got EOFError still sees an open channel
+            if not sendonly:  # otherwise #--> "sendonly"
+                channel._closed = True  # --> "closed"
             queue = channel._items
             if queue is not None:
                 queue.put(ENDMARKER)
             self._no_longer_opened(id)
-            if not sendonly:  # otherwise #--> "sendonly"
-                channel._closed = True  # --> "closed"
             channel._receiveclosed.set()
 
     def _local_receive(self, id: int, data) -> None:
